@@ -8,6 +8,7 @@ import IodineModel.Drv.Slots
 import IodineModel.Drv.WireRead
 import IodineModel.Drv.WirePut
 import IodineModel.Drv.Server
+import IodineModel.Drv.Client
 import IodineModel.Drv.Shell
 /-
 Line-protocol driver: one operation per input line, one result line per operation.
@@ -20,6 +21,7 @@ structure DrvState where
   fw : FwQuery.Fw := FwQuery.init
   slots : List Users.Slot := []
   srv : Drv.Server.St := {}
+  cli : Drv.Client.St := {}
 
 def firstSome (fs : List (List String → Option String)) (toks : List String) : Option String :=
   fs.findSome? (fun f => f toks)
@@ -35,8 +37,14 @@ def step (st : DrvState) (line : String) : DrvState × String :=
     match Drv.Slots.handle st.slots toks with
     | some (sl, r) => ({ st with slots := sl }, r)
     | none =>
-    match Drv.Server.handle st.srv toks with
-    | some (sv, r) => ({ st with srv := sv }, r)
+    -- `tick` and `tun` are ops of both session machines: the one configured last (`cfg` / `ccfg`) answers
+    let srvH : Option (DrvState × String) :=
+      (Drv.Server.handle st.srv toks).map fun (sv, r) =>
+        ({ st with srv := sv, cli := if toks.head? == some "cfg" then { st.cli with configured := false } else st.cli }, r)
+    let cliH : Option (DrvState × String) :=
+      (Drv.Client.handle st.cli toks).map fun (cl, r) => ({ st with cli := cl }, r)
+    match (if st.cli.configured then cliH <|> srvH else srvH <|> cliH) with
+    | some r => r
     | none => (st, "bad-op")
 
 partial def loop (h : IO.FS.Stream) (out : IO.FS.Stream) (st : DrvState) : IO Unit := do
